@@ -1053,7 +1053,7 @@ def run(ctx):
         enumerate_nonprom(ctx)
         enumerate_badstr(ctx)
         enumerate_small_pairs(ctx)
-        n = ctx.scale(36000, 1200000)
+        n = ctx.scale(30000, 1200000)
         for i in range(n):
             c = gen_objs_case(ctx) if ctx.rng.random() < 0.72 else gen_operand_case(ctx)
             ctx.run_case(judge, c)
